@@ -373,6 +373,10 @@ fn tracking_case(ctx: &Ctx, rng: &mut Rng, id: u64, st: &mut Stats) {
         let acc = if is_out { m.cpu().regs.get_acc() } else { 0 };
         m.step();
         steps += 1;
+        // with IFF1 set (the ROM's IM 1 handler returns with EI) the step may have accepted the frame
+        // interrupt instead of executing the OUT it was looking at; the OUT then runs after the
+        // handler has returned and is logged then
+        let is_out = is_out && m.cpu().regs.get_pc() == pc.wrapping_add(2);
         let now = m.clock();
         let wrapped = now < prev_clock;
         let abs_before = frame as f64 * frame_len + prev_clock as f64;
